@@ -75,6 +75,7 @@ class Ctx:
         self.known_hits = {}       # key -> (entry, count)
         self.drift = []
         self.tlc_runs = []
+        self.action_cov = {}
         self._kf = load_known()
         shutil.rmtree(os.path.join(VERIF, "replays", prop), ignore_errors=True)
         self._bins = {}
@@ -85,7 +86,7 @@ class Ctx:
 
     # ------------------------------------------------------------------ TLC
     def tlc(self, module, cfg, workers=None, simulate=None, depth=None, env=None, timeout=900,
-            deadlock=False, extra=None, coverage=False, dfs=False, files=None, heap=None,
+            deadlock=False, extra=None, coverage=None, dfs=False, files=None, heap=None,
             allow_violation=False, dump_dot=None):
         """Run TLC on spec/<module>.tla with spec/cfg/<cfg>; returns TLCResult.
 
@@ -113,6 +114,9 @@ class Ctx:
                                    "-noGenerateSpecTE"]
         if not deadlock:
             args.append("-deadlock")   # -deadlock DISABLES deadlock checking
+        if coverage is None:
+            # action coverage (vacuity report) for the exhaustive runs of the thorough tier
+            coverage = self.tier == "thorough" and not simulate and not dump_dot
         if coverage:
             args += ["-coverage", "1"]
         if simulate:
@@ -150,6 +154,13 @@ class Ctx:
                                   ok=r.ok, violated=r.violated, mode="simulate" if simulate else "bfs"))
         self.states += r.distinct
         self.transitions += r.generated
+        if coverage:
+            # "<Action line a, col b to line c, col d of module M>: distinct:generated" (last report wins per run)
+            per = {}
+            for m in re.finditer(r"^<(\w+) line \d+, col \d+ to line \d+, col \d+ of module (\w+)>: (\d+):(\d+)\s*$", r.out, re.M):
+                per[m.group(2) + "!" + m.group(1)] = int(m.group(4))
+            for k, v in per.items():
+                self.action_cov[k] = self.action_cov.get(k, 0) + v
         if not r.ok and r.violated is None:
             tail = "\n".join(r.out.splitlines()[-40:])
             raise Infra("TLC failed on %s/%s (rc=%s):\n%s" % (module, cfg, r.rc, tail))
@@ -262,6 +273,12 @@ class Ctx:
             known_findings_hit=[dict(key=k, count=v[1]) for k, v in sorted(self.known_hits.items())],
             drift=self.drift,
         )
+        if self.action_cov:
+            cov["spec_action_coverage"] = dict(
+                note="states generated per specification action, summed over the exhaustive TLC runs of this check "
+                     "(-coverage 1); an action with 0 was never enabled in any configuration of this check",
+                generated=dict(sorted(self.action_cov.items())),
+                never_enabled=sorted(k for k, v in self.action_cov.items() if v == 0))
         if self.exhaustive is not None:
             cov["exhaustive"] = bool(self.exhaustive)
         cov.update(self.extra)
